@@ -295,6 +295,13 @@ func cloneExpr(expr Expression) Expression {
 			Ranges:         append([]rune{}, expr.Ranges...),
 			UnicodeClasses: append([]string{}, expr.UnicodeClasses...),
 		}
+	case *LitMatcher:
+		// literals are modified in place when adjacent literals of a sequence are
+		// combined, so every copy needs a node of its own
+		return &LitMatcher{
+			posValue:   expr.posValue,
+			IgnoreCase: expr.IgnoreCase,
+		}
 	case *ChoiceExpr:
 		alts := make([]Expression, 0, len(expr.Alternatives))
 		for i := 0; i < len(expr.Alternatives); i++ {
